@@ -50,7 +50,12 @@ TamperRejected      == (cs.payload # "none" \/ cs.hdr = "memberAdded" \/ (cs.hdr
 Emit == PrintT("CASE " \o ToJson([c |-> cs, out |-> out]))
 
 MalformedCompact == {"twoParts", "fourParts", "badB64Header", "badB64Payload", "badB64Signature", "headerNotJson", "headerArray", "headerNoAlg",
-                     "b64NotBoolean", "emptyPayload", "emptySignature", "jsonSerialization", "emptyString", "onlyDots", "headerNull"}
+                     "b64NotBoolean", "emptyPayload", "emptySignature", "jsonSerialization", "emptyString", "onlyDots", "headerNull",
+                     \* an alg member that names no algorithm (null, "", number, boolean, array, object);
+                     \* segments that are not base64url (RFC 7515 section 2): a line break in / after a segment, a last character with stray bits
+                     "headerAlgNotAString", "lineBreakInSegment", "strayBitsInSegment", "strayBitsInHeaderSegment"}
+(* what the library's own signing utility is asked to sign: it either refuses, or what it returns verifies *)
+SignedPayloads == {"empty", "oneByte", "json", "binary"}
 MalformedJWK == {"unknownKty", "unknownCrv", "missingX", "shortX", "longX", "zeroPaddedX", "zeroPaddedY", "strippedY", "offCurve", "badB64X", "ktyCrvMismatch", "emptyFields", "missingY", "yOnOKP", "zeroPoint"}
-ASSUME PrintT("MALFORMED " \o ToJson([compact |-> MalformedCompact, jwk |-> MalformedJWK]))
+ASSUME PrintT("MALFORMED " \o ToJson([compact |-> MalformedCompact, jwk |-> MalformedJWK, payloads |-> SignedPayloads]))
 =============================================================================
